@@ -14,6 +14,12 @@ add("C01", "crash-isolated runtime exploration: Go runtime checks (panic via rec
 add("C02", "information-flow (taint) runtime monitor: uniquely marked context strings, output scanned for raw marker material; filter sweep plus random opt-out-free programs; repeated executions with swapped safe/tainted contexts",
     "Runtime exploration: every string leaf of a ~110-value context carries a marker made of < > & ' \"; all registered filters (minus declared opt-outs) are swept in 17 syntactic positions and random opt-out-free programs over the whole vocabulary (files, macros, inheritance, filter tag, array literals ...) are executed; the output is scanned for any raw special character that is not engine-originated. Held = no leak on the executions observed.",
     "Template text and literals are generated free of the special characters; the only engine-originated markup accepted is the '<type Value>' placeholder. In programs using the filter tag (which post-processes rendered text and can mangle that placeholder) a lone < or > and raw & are not judged; quotes and angle brackets adjacent to a raw & still are.")
+add("C04", "metamorphic runtime monitor over execution histories: used compiled template vs a fresh compile executed once with the same context; error positions checked against the program's own sources",
+    "Runtime exploration: random deterministic programs over every tag (with loader files, stateful-looking constructs, failing includes) are compiled once under each TrimBlocks x LStripBlocks setting and executed 2..8 times with contexts drawn with repetition from a pool (equal, failing, nil, type-swapped) through alternating entry points; after every execution the (output, error) pair must equal that of a fresh compile executed exactly once. Held = no divergence on the histories observed.",
+    "Decides only the dynamic half of the property (no static write-effect analysis). Documented non-determinism (clock, randomness, Go map order incl. the evaluation order of several with-pairs/macro defaults) is not generated.")
+add("C05", "Go race detector (-race worker, GORACE logs parsed and de-duplicated) over concurrent executions of shared compiled templates and sets; results compared with a sequential reference",
+    "Runtime exploration under the race detector: per case one deterministic program is compiled once and executed by 2-16 goroutines for 10-200 iterations under GOMAXPROCS 2/4/16, mixed with FromCache/FromFile/FromString on the same set and lazy includes compiling at run time; zero race reports with engine frames are required and every concurrent result must equal the sequential reference; error positions must lie in the program's own sources. Held = nothing observed on the schedules that occurred.",
+    "The race detector sees only the interleavings that happened; only the dynamic half of the property is decided. Violations in this workload are reported as observed (not re-executed alone) because they depend on schedule and process history.")
 add("C06", "metamorphic runtime monitor (identity / concatenation relations) over exhaustive short strings and random fragment sequences; counting context function as evaluation probe",
     "Runtime exploration: every string up to length 5/6 over the lexer-significant alphabet is compiled and rendered (exhaustive for that sub-space), plus random byte strings and fragment sequences; the oracle compares the engine's output with the source / the concatenation of the parts' renderings and watches a call counter placed inside comments. Held means: no deviation on the executions observed.",
     "Trusts the Go runtime and the harness' fragment generator (seams never create an opening delimiter). Whitespace control is excluded (C15).")
